@@ -364,4 +364,117 @@ theorem pipeline_to_ljh3_file (zts : List (List (Int × Int))) (j : Nat) (sg : B
           rw [this, Nat.add_mul, Nat.one_mul, Nat.add_comm]
       rw [this _ hlenall]
 
+/-! ### with group-trigger requests woven in
+
+While writing is active `ConfigurePulseLengths` is refused, but group-trigger connections may be edited at
+any time.  Those requests change the broker only, so the statement on record lengths — and with it the
+file theorem — holds for any history of blocks and group-trigger requests (no contiguity needed). -/
+
+/-- operations that leave every channel's settings alone: data blocks and group-trigger edits -/
+def KeepsSettings : Op → Prop
+  | .block .. => True
+  | .gadd _ => True
+  | .gdel _ => True
+  | .gstop => True
+  | _ => False
+
+theorem runOps_chanRecs_len (zts : List (List (Int × Int))) (j : Nat) :
+    ∀ (ops : List Op) (s : Src) (c : Chan) (outs : List Out),
+      (∀ o ∈ ops, KeepsSettings o) → s.chans[j]? = some c → c.ts.edgeMulti = false →
+      runOps zts s ops = some outs →
+      ∀ r ∈ chanRecs j outs, (r.data.length : Int) = c.nsamp ∧ r.npre = c.npre
+  | [], s, c, outs, _, _, _, h => by
+    simp only [runOps, Option.some.injEq] at h
+    subst h
+    intro r hr; simp [chanRecs] at hr
+  | o :: os, s, c, outs, hk, hc, hem, h => by
+    have hko := hk o (by simp)
+    have hkos : ∀ o' ∈ os, KeepsSettings o' := fun o' ho' => hk o' (by simp [ho'])
+    cases o with
+    | block f t p sgs data =>
+      simp only [runOps, stepOp, bind, pure, Option.bind_eq_some_iff, Option.some.injEq] at h
+      obtain ⟨⟨s1, out1⟩, ⟨⟨s1', r⟩, hob, hpair⟩, outs2, hrun2, hout⟩ := h
+      simp only [Prod.mk.injEq] at hpair
+      obtain ⟨rfl, rfl⟩ := hpair
+      subst hout
+      obtain ⟨c1, prim, sec, hc1, hrj, hts, hns, hnp, hsecl, hpriml⟩ := opBlock_chan_len hob j c hc
+      have ih := runOps_chanRecs_len zts j os s1' c1 outs2 hkos hc1 (by rw [hts]; exact hem) hrun2
+      intro rr hrr
+      simp only [chanRecs, hrj, Option.getD_some, List.mem_append] at hrr
+      rcases hrr with (h1 | h1) | h1
+      · exact hpriml hem rr h1
+      · exact hsecl rr h1
+      · have := ih rr h1
+        rw [hns, hnp] at this
+        exact this
+    | gadd ps =>
+      simp only [runOps, stepOp, bind, pure, Option.bind_eq_some_iff, Option.some.injEq] at h
+      obtain ⟨⟨s1, out1⟩, hpair, outs2, hrun2, hout⟩ := h
+      simp only [Prod.mk.injEq] at hpair
+      obtain ⟨rfl, rfl⟩ := hpair
+      subst hout
+      exact runOps_chanRecs_len zts j os { s with broker := C09.applyAll C09.add s.broker ps } c outs2 hkos hc hem hrun2
+    | gdel ps =>
+      simp only [runOps, stepOp, bind, pure, Option.bind_eq_some_iff, Option.some.injEq] at h
+      obtain ⟨⟨s1, out1⟩, hpair, outs2, hrun2, hout⟩ := h
+      simp only [Prod.mk.injEq] at hpair
+      obtain ⟨rfl, rfl⟩ := hpair
+      subst hout
+      exact runOps_chanRecs_len zts j os { s with broker := C09.applyAll C09.del s.broker ps } c outs2 hkos hc hem hrun2
+    | gstop =>
+      simp only [runOps, stepOp, bind, pure, Option.bind_eq_some_iff, Option.some.injEq] at h
+      obtain ⟨⟨s1, out1⟩, hpair, outs2, hrun2, hout⟩ := h
+      simp only [Prod.mk.injEq] at hpair
+      obtain ⟨rfl, rfl⟩ := hpair
+      subst hout
+      exact runOps_chanRecs_len zts j os { s with broker := C09.stopAll s.broker } c outs2 hkos hc hem hrun2
+    | trig r => exact absurd hko (by simp [KeepsSettings])
+    | len a b => exact absurd hko (by simp [KeepsSettings])
+
+/-- **`pipeline_to_ljh22_file` for any history of blocks and group-trigger requests** (what can happen
+inside a writing period without touching the channel's own settings) -/
+theorem pipeline_to_ljh22_file_weave (zts : List (List (Int × Int))) (j : Nat)
+    (ops : List Op) (s : Src) (c : Chan) (outs : List Out)
+    (hk : ∀ o ∈ ops, KeepsSettings o) (hc : s.chans[j]? = some c) (hem : c.ts.edgeMulti = false)
+    (hrun : runOps zts s ops = some outs)
+    (p : C05.Params) (hdr : C05.Bytes) (hp : p.nsamp = c.nsamp)
+    (batches : List (List C05.W22)) (hbat : batches.flatten = (chanRecs j outs).map toW22) :
+    let recs := chanRecs j outs
+    let fin := C05.run (C05.fmt22 p hdr) {} (fileOps batches)
+    (recs = [] → C05.fileOf fin = none) ∧
+    (recs ≠ [] → ∃ file, C05.fileOf fin = some file ∧ file.take hdr.length = hdr ∧
+      C05.parseBody (C05.parseLJH22 p.nsamp.toNat 2) (file.drop hdr.length) =
+        some (recs.map fun r => C05.expect22 p.subdiv p.suboff (toW22 r)) ∧
+      file.length = hdr.length + recs.length * (16 + p.nsamp.toNat * 2)) := by
+  have hlenall := runOps_chanRecs_len zts j ops s c outs hk hc hem hrun
+  have hacc : ∀ b ∈ batches, ∀ r ∈ b, (C05.fmt22 p hdr).accept r = true := by
+    intro b hbm r hr
+    have : r ∈ batches.flatten := List.mem_flatten.mpr ⟨b, hbm, hr⟩
+    rw [hbat] at this
+    obtain ⟨x, hx, rfl⟩ := List.mem_map.mp this
+    have := (hlenall x hx).1
+    simp only [C05.fmt22, toW22, beq_iff_eq]
+    omega
+  obtain ⟨hstop, htouch, haccd⟩ := fileOps_spec (C05.fmt22 p hdr) batches hacc
+  have hany := any_nonempty_iff batches
+  rw [hbat] at hany
+  simp only
+  refine ⟨?_, ?_⟩
+  · intro hnil
+    have ht : C05.touched (ρ := C05.W22) {} (fileOps batches) = false := by
+      rw [htouch]
+      cases h : batches.any (fun b => !b.isEmpty) with
+      | false => rfl
+      | true => exact absurd (by rw [hnil]; rfl) (hany.mp h)
+    rw [C05.C05_file_is_header_plus_records _ _ hstop, ht]
+    simp
+  · intro hne
+    have ht : C05.touched (ρ := C05.W22) {} (fileOps batches) = true := by
+      rw [htouch]; exact hany.mpr (by simpa using hne)
+    obtain ⟨file, hf, htake, hparse, hlen⟩ := C05.C05_body_parses_back_ljh22 p hdr _ hstop ht
+    rw [haccd, hbat] at hparse hlen
+    refine ⟨file, hf, htake, ?_, ?_⟩
+    · rw [hparse, List.map_map]; rfl
+    · rw [hlen, List.length_map]
+
 end DastardV.Compose
